@@ -16,7 +16,6 @@
 (* The packet IDs the endpoint chose are bound to the actions' id parameters; everything else   *)
 (* is computed by the specification and compared clause by clause.                              *)
 EXTENDS ClientCircuit, Json, IOUtils, TLCExt
-CONSTANTS Window     \* de-duplication memory of the code (1000): environment stays below it
 TraceLog == ndJsonDeserialize(IOEnv.TRACE_FILE)
 VARIABLES l, tid
 tvars == <<vars, l, tid>>
@@ -25,7 +24,6 @@ Chk(name, cond) == IF cond THEN TRUE ELSE PrintT(ToJson([fail |-> name, line |->
 Env(name, cond) == Assert(cond, <<"driver violated environment assumption", name, l>>)
 IsEvent(e) == l <= Len(TraceLog) /\ TraceLog[l].ev = e /\ l' = l + 1
 Rec == TraceLog[l]
-Range(s) == {s[i] : i \in DOMAIN s}
 RECURSIVE Flat(_)
 Flat(ss) == IF ss = <<>> THEN <<>> ELSE Head(ss) \o Flat(Tail(ss))
 
@@ -62,14 +60,13 @@ ChkStep == /\ Chk("exception escaped", ~Rec.raised)
 
 TInit == Init /\ l = 1 /\ tid = -1
 TReset == /\ IsEvent("Reset") /\ tid' = Rec.tid
-          /\ seen' = {} /\ rR' = <<>> /\ aR' = <<>> /\ dR' = <<>> /\ rU' = <<>> /\ dU' = <<>>
+          /\ seen' = <<>> /\ evN' = <<>> /\ rR' = <<>> /\ aR' = <<>> /\ dR' = <<>> /\ rU' = <<>> /\ dU' = <<>>
           /\ pend' = {} /\ done' = {} /\ failed' = {} /\ relIssued' = {} /\ ackedSince' = {} /\ xmits' = {}
           /\ ids' = <<>> /\ lastId' = -1 /\ subs' = [lv \in Levels |-> <<>>]
           /\ out' = [NoOut EXCEPT !.calls = [lv \in Levels |-> <<>>]]
 
 TRecv == /\ IsEvent("Recv") /\ UNCHANGED tid
-         /\ Env("dedupe window", Cardinality(seen \cup {Rec.p}) < Window)
-         /\ Recv(Rec.p, Rec.rel, Range(Rec.acks), IdParam(Rec.tx), Rec.match)
+         /\ Recv(Rec.p, Rec.rel, Range(Rec.acks), IdParam(Rec.tx), Rec.match, Rec.dl.sess > 0)   \* open choice: as observed
          /\ ChkStep
          /\ ChkIds(Rec.tx)
          /\ Chk(IF Rec.rel THEN "ack-every-receipt" ELSE "no ack for unreliable", Acked(Rec.tx) = out'.acks /\ Len(Rec.tx) = Len(out'.acks))
